@@ -28,9 +28,9 @@ import (
 type Report struct {
 	ModulePath string         `json:"module_path"`
 	Files      []string       `json:"files"`
-	Sites      map[string]int `json:"sites"`      // seam kind → number of sites woven
-	SiteList   []string       `json:"site_list"`  // "kind file:line"
-	Unwoven    []string       `json:"unwoven"`    // os/time/... uses the weaver knows no replacement for
+	Sites      map[string]int `json:"sites"`     // seam kind → number of sites woven
+	SiteList   []string       `json:"site_list"` // "kind file:line"
+	Unwoven    []string       `json:"unwoven"`   // os/time/... uses the weaver knows no replacement for
 	Warnings   []string       `json:"warnings"`
 }
 
@@ -42,10 +42,10 @@ var table = map[string]map[string]string{
 		"Open": "simrt.Open", "Create": "simrt.Create", "OpenFile": "simrt.OpenFile", "Stat": "simrt.Stat", "Lstat": "simrt.Stat",
 		"Rename": "simrt.Rename", "Remove": "simrt.Remove", "ReadFile": "simrt.ReadFile", "WriteFile": "simrt.WriteFile",
 	},
-	"io/ioutil": {"ReadFile": "simrt.ReadFile", "WriteFile": "simrt.WriteFile"},
-	"fmt":       {"Print": "simrt.Print", "Printf": "simrt.Printf", "Println": "simrt.Println"},
-	"time":      {"Now": "simrt.Now", "Since": "simrt.Since", "Sleep": "simrt.Sleep"},
-	"path/filepath":          {"Glob": "simrt.Glob"},
+	"io/ioutil":             {"ReadFile": "simrt.ReadFile", "WriteFile": "simrt.WriteFile"},
+	"fmt":                   {"Print": "simrt.Print", "Printf": "simrt.Printf", "Println": "simrt.Println"},
+	"time":                  {"Now": "simrt.Now", "Since": "simrt.Since", "Sleep": "simrt.Sleep"},
+	"path/filepath":         {"Glob": "simrt.Glob"},
 	"golang.org/x/sys/unix": {"IoctlGetWinsize": "simrt.IoctlGetWinsize"},
 }
 
